@@ -25,6 +25,13 @@ RvDecidable(rv) ==
           /\ (x.k = "num" /\ x.cls = "fin" => F64Class(F64OfNumeral(x.numeral)) = "fin")
           /\ (x.k = "coord" => F64Class(F64OfNumeral(x.lat)) = "fin" /\ F64Class(F64OfNumeral(x.lng)) = "fin")
           /\ (x.k = "grid" => Len(x.cols) >= 1 /\ \A i, j \in 1..Len(x.cols) : i # j => x.cols[i].name # x.cols[j].name)
+          \* an empty line inside a one-column grid: a row without cells by the row production, the end of the grid by every
+          \* reader - the grammar is ambiguous there (the recorded finding zinc-single-column-empty-row), no claim is made
+          /\ (x.k = "grid" /\ Len(x.cols) = 1 => \A r \in 1..Len(x.rows) : x.rows[r] # <<>>)
+
+\* a timestamp whose zone offset has seconds (local mean time before standard time) has no exact RFC 3339 text: what the
+\* Rust encoders write for it is the subject of C01 / C11 (recorded finding zinc-lmt-offset-seconds), not of the C boundary
+SubMinuteOffset(v) == \E x \in Parts(v) : x.k = "dt" /\ x.off % 60 # 0
 
 RetSame(want, got) ==
     CASE want.r = "f64" -> got.r = "f64" /\ SameBits(want.bits, got.bits)
@@ -66,10 +73,10 @@ Judge(e) ==
            ELSE <<Need(obsFail \/ (e.ret.r = "null" /\ unchanged), "C17", <<Fn(e), "neither a value nor the sentinel", e.ret>>),
                   [failed EXCEPT !.err = IF Fn(e) = "haystack_value_get_ref_dis" THEN st.err ELSE TRUE]>>
       [] x.kind = "zinctext" ->
-           IF e.ret.r = "str" THEN <<Need(~WFv(V(st, c.h), UnitSymbols) \/ ZincDenotes(e.ret.s, V(st, c.h)), "C17", <<Fn(e), "text does not denote the value", StringOf(e.ret.s)>>) \o Need(unchanged, "C17", <<Fn(e), "changed a handle">>), st>>
+           IF e.ret.r = "str" THEN <<Need(~WFv(V(st, c.h), UnitSymbols) \/ SubMinuteOffset(V(st, c.h)) \/ ZincDenotes(e.ret.s, V(st, c.h)), "C17", <<Fn(e), "text does not denote the value", StringOf(e.ret.s)>>) \o Need(unchanged, "C17", <<Fn(e), "changed a handle">>), st>>
            ELSE <<Need(e.ret.r = "null" /\ unchanged /\ \E p \in Parts(V(st, c.h)) : p.k \in {"str", "uri", "ref", "xstr", "symbol"} , "C17", <<Fn(e), "failed on an encodable value">>), failed>>
       [] x.kind = "jsontext" ->
-           IF e.ret.r = "str" THEN <<Need(~WFv(V(st, c.h), UnitSymbols) \/ (e.tree.j # "none" /\ HaysonDenotes(e.tree, V(st, c.h))), "C17", <<Fn(e), "JSON does not denote the value">>) \o Need(unchanged, "C17", <<Fn(e), "changed a handle">>), st>>
+           IF e.ret.r = "str" THEN <<Need(~WFv(V(st, c.h), UnitSymbols) \/ SubMinuteOffset(V(st, c.h)) \/ (e.tree.j # "none" /\ HaysonDenotes(e.tree, V(st, c.h))), "C17", <<Fn(e), "JSON does not denote the value">>) \o Need(unchanged, "C17", <<Fn(e), "changed a handle">>), st>>
            ELSE <<Need(e.ret.r = "null" /\ unchanged, "C17", <<Fn(e), "failed">>), failed>>
       [] x.kind = "fromzinc" ->
            LET r == ZincRead(c.s.s) IN
